@@ -39,8 +39,22 @@ var (
 var c20ErrNotExist error = &fs.PathError{Op: "stub", Path: "?", Err: fs.ErrNotExist}
 var c20ErrNotEmpty = errors.New("stub: directory not empty")
 
+// the stub's current directory has an absolute name too, so that a rewrite
+// which resolves its target with filepath.Abs / os.Getwd is still decided
+const c20CwdPath = "/zzcwd"
+
+func ZZStub_os_Getwd() (string, error) { return c20CwdPath, nil }
+
 func c20Find(path string) (parent, n *c20Node) {
 	n = c20Cwd
+	if path == c20CwdPath {
+		return nil, n
+	}
+	if strings.HasPrefix(path, c20CwdPath+"/") {
+		path = path[len(c20CwdPath)+1:]
+	} else if strings.HasPrefix(path, "/") {
+		return nil, nil
+	}
 	if path == "." || path == "" {
 		return nil, n
 	}
